@@ -5,7 +5,7 @@ from ..fdai import EnumV, AggV, K, SymV, RefV, Cell, Loc, TOP, load, snapshot
 from . import contrib as CB
 
 LEVEL = "other"
-TECHNIQUE = 'abstract device model (sa/rules/devmodel.py): EventRegister::set_condition / set_condition_bits / clear_condition_bits / preset / clear_event and the STATus command handlers (both register sets) are interpreted by the FDAI engine on concrete register words; set_condition is evaluated on bit-sliced inputs that place all 32 per-bit combinations of (event, old, new, ptr, ntr) on several bit positions including bit 15, and the resulting register is compared with the SCPI-99 latch formula; handlers: response value and final registers for boundary words; census of every function that writes a register field'
+TECHNIQUE = 'abstract device model (sa/rules/devmodel.py): EventRegister::set_condition / set_condition_bits / clear_condition_bits / preset / clear_event and the STATus command handlers (both register sets) are interpreted by the FDAI engine on concrete register words; set_condition is evaluated on bit-sliced inputs that place all 32 per-bit combinations of (event, old, new, ptr, ntr) on several bit positions including bit 15, and the resulting register is compared with the SCPI-99 latch formula; handlers: response value and final registers for boundary words; census of every function that writes a register field; the STATus tree the macros declare (witness device`s `const TREE` evaluated: mnemonics, default nodes, handler types and their register set); uniform words next to the bit-sliced ones'
 LEVEL_TEXT = "The register is five plain words. The latch is decided per bit completely (bitwise code is bit-parallel; the sliced inputs cover every combination on several positions, so position-dependent code shows as well); PRESet / *CLS / clear as final-state comparisons; every query answers its word with bit 15 clear and changes nothing except EVENt?, which clears what it returns; ENABle/PTR/NTR store the 16-bit parameter in their own word of the addressed set only. Histories then follow from 'writers enumerated (census), each writer's effect exactly known'."
 LEVEL_NOTE = "Not decided: arbitrary histories (argued from the writer census and the per-writer formulas); device code may write the public fields directly. Trusted: rustc MIR, FDAI models."
 
